@@ -1,15 +1,17 @@
 #!/usr/bin/env python3
 """Imports confirmed sub-agent seeds from /tmp/seedout into /verif/seeded/<id>/ (patch.diff, demo, meta.json)."""
 import json, os, shutil, glob, re
-V = json.load(open("/tmp/seedout/validation.json"))
+SEEDOUT = os.environ.get("SEEDOUT", "/tmp/seedout")
+SUFFIX = os.environ.get("SEED_SUFFIX", "")
+V = json.load(open(os.path.join(SEEDOUT, "validation.json")))
 here = os.path.join(os.path.dirname(os.path.abspath(__file__)), "..")
 for key, r in sorted(V.items()):
     if not r.get("ok"):
         print("skip", key, r.get("why", ""), {k: v for k, v in r.items() if k.endswith("_rc")}); continue
     prop, m = key.split("-")
-    d = os.path.join(here, "seeded", key)
+    d = os.path.join(here, "seeded", prop + "-" + SUFFIX + m)
     os.makedirs(d, exist_ok=True)
-    src = "/tmp/seedout/%s" % prop
+    src = SEEDOUT + "/%s" % prop
     shutil.copy(os.path.join(src, m + ".diff"), os.path.join(d, "patch.diff"))
     demo = glob.glob(os.path.join(src, m + "_demo*"))[0]
     shutil.copy(demo, os.path.join(d, "demo_test.go.txt"))
@@ -18,7 +20,7 @@ for key, r in sorted(V.items()):
     meta_path = os.path.join(d, "meta.json")
     meta = json.load(open(meta_path)) if os.path.exists(meta_path) else {}
     meta.update({
-        "id": key, "property": prop, "source": "independent sub-agent given only the property text and a scratch worktree",
+        "id": prop + "-" + SUFFIX + m, "property": prop, "source": "independent sub-agent given only the property text and a scratch worktree",
         "demo": {"file": "demo_test.go.txt", "place_in": r["pkg"], "run": "go test -vet=off -count=1 -run '%s' ./%s/" % (r["run"], r["pkg"])},
         "needs_to_manifest": (re.search(r"(?is)(needs?|trigger|manifest)[^\n]*\n?[^\n]*", notes) or [""])[0][:400] if notes else "",
         "confirmed": {"how": "tools/validate_seeds.py in a scratch worktree of /repo HEAD: patch applies, go build ./... ok, full suite ok with the patch, demo passes on the clean tree and fails with the patch",
